@@ -41,16 +41,16 @@ type protoEvent struct {
 type protoMon struct {
 	endedBySilence bool
 	ids            [2]string // accepting side: SenderCompID / TargetCompID every outbound message carries since the last accepted Logon
-	prop       string
-	role       string
-	state      byte // 'W' waiting for a Logon, 'L' logged on, 'O' logout sent by us, awaiting answer
-	everLogged bool
-	sawInvalid bool
-	silences   int
-	loggedOut  bool // the session was logged on and has left that state at least once
-	silAfterLO int  // silence periods since then: the test-request timer of the ended logon may have fired
-	evs        map[string]*protoEvent
-	lastSeq    int
+	prop           string
+	role           string
+	state          byte // 'W' waiting for a Logon, 'L' logged on, 'O' logout sent by us, awaiting answer
+	everLogged     bool
+	sawInvalid     bool
+	silences       int
+	loggedOut      bool // the session was logged on and has left that state at least once
+	silAfterLO     int  // silence periods since then: the test-request timer of the ended logon may have fired
+	evs            map[string]*protoEvent
+	lastSeq        int
 }
 
 func (m *protoMon) Key() string {
@@ -466,7 +466,7 @@ func protoAlphabet(role string, which string) []*protoEvent {
 }
 
 func sleepFor(sec int) { time.Sleep(time.Duration(sec) * time.Second) }
-func settle()           { vsched.Settle() }
+func settle()          { vsched.Settle() }
 
 var errRefused = errors.New("credentials refused")
 
@@ -588,7 +588,6 @@ func runProto(R *vlib.Out, prop string) {
 		exploreHist(R, c)
 	}
 }
-
 
 // ---- logon parameter sweep (C06 / C07) ----
 // One Logon on a fresh accepting session: every heartbeat interval of a list that contains the limits,
